@@ -164,6 +164,8 @@ func handleLSet(params internal.HandlerFuncParams) ([]byte, error) {
 		return nil, errors.New("index must be within list range")
 	}
 
+	// Work on a copy: the stored list must stay as it is until SetValues replaces it.
+	list = slices.Clone(list)
 	list[index] = params.Command[3]
 	if err = params.SetValues(params.Context, map[string]interface{}{key: list}); err != nil {
 		return nil, err
@@ -258,6 +260,8 @@ func handleLRem(params internal.HandlerFuncParams) ([]byte, error) {
 	if !ok {
 		return nil, errors.New("LREM command on non-list item")
 	}
+	// Work on a copy: the stored list must stay as it is until SetValues replaces it.
+	list = slices.Clone(list)
 
 	removedCount := len(list)
 
